@@ -1,5 +1,6 @@
 (* C10 driver.  One request carries a whole history:
-     run <by_id:0|1> <op;op;...>     -> ok <out;out;...>
+     run <by_id:0|1> <old_truthy:0|1> <op;op;...>     -> ok <out;out;...>
+   (by_id 1 / old_truthy 0 = the code as it is; the other values are the two recorded mutants)
    op  = N,<kind n|l|d|c>,<data>   new node (handle = number of nodes so far)
        | S,p,key,c | D,p,key | U,p,<name=c+name=c|.> | G,p,key | C,p,key
        | H,n (read .hash) | F,n (update_hash(force=True)) | E,n (entries) | M,n (to_model)
@@ -7,13 +8,16 @@
    out = u | h<handle> | b0|b1 | x<hash> | e<name:data:hash+...> | n<handle:hash,...> | !<error>
    byte strings in hex ("." = empty).  The node hash function NH handed to
    the model is MD5 (OCaml's Digest) of an injective text encoding of
-   (data, [(name, child data, child hash)]); harness/c10.py uses the same. *)
+   (data, [(name, child data, child hash)]) - except that a childless node with
+   data "z" hashes to the empty string, so that falsy hashes are exercised;
+   harness/c10.py uses the same.  In a collect answer a node without cached
+   hash prints as the empty hash (mutant old_truthy only). *)
 let str_of_bytes (l : n list) : string = String.concat "" (List.map (fun b -> String.make 1 (Char.chr (int_of_n b))) l)
 let bytes_of_str (s : string) : n list = List.init (String.length s) (fun i -> n_of_int (Char.code s.[i]))
 let hexs (l : n list) : string = if l = [] then "." else hex_of_bytes l
 let nh (d : n list) (es : ((n list * n list) * n list) list) : n list =
   let enc = "D" ^ hexs d ^ "|" ^ String.concat "," (List.map (fun ((nm, kd), kh) -> hexs nm ^ ":" ^ hexs kd ^ ":" ^ hexs kh) es) in
-  bytes_of_str (Digest.string enc)
+  if hexs d = "7a" && es = [] then [] else bytes_of_str (Digest.string enc)
 let kind_of = function "n" -> KNode | "l" -> KLeaf | "d" -> KDir | "c" -> KContent | _ -> failwith "kind"
 let nat s = nat_of_int (int_of_string s)
 let parse_items s = if s = "." then [] else
@@ -41,13 +45,14 @@ let show_out (s : heap) (o : out) : string =
   | OutEntries es -> "e" ^ String.concat "+" (List.map (fun ((nm, kd), kh) -> hexs nm ^ ":" ^ hexs kd ^ ":" ^ hexs kh) es)
   | OutNodes l -> "n" ^ String.concat "," (List.map (fun x ->
         string_of_int (int_of_nat x) ^ ":" ^
-        (match nth_error s x with Some nd -> (match cached nd with Some h -> hexs h | None -> "-") | None -> "?")) l)
+        (match nth_error s x with Some nd -> (match cached nd with Some h -> hexs h | None -> ".") | None -> "?")) l)
   | OutErr e -> "!" ^ show_err e
 let () = serve (function
-  | ["run"; byid; ops] ->
+  | ["run"; byid; oldt; ops] ->
       let by_id = (byid = "1") in
+      let old_truthy = (oldt = "1") in
       let ops = List.map parse_op (String.split_on_char ';' ops) in
       let (_, outs) = List.fold_left (fun (s, acc) o ->
-          let (s', r) = step nh by_id s o in (s', show_out s' r :: acc)) ([], []) ops in
+          let (s', r) = step nh by_id old_truthy s o in (s', show_out s' r :: acc)) ([], []) ops in
       "ok " ^ String.concat ";" (List.rev outs)
   | _ -> "err bad_request")
